@@ -70,8 +70,14 @@ Definition adc_end (sys : system) (a : event) : Q :=
   e_delay a + inject_Z (e_nsamp a) * e_dwell a + s_adc_dead sys.
 Definition rf_last (r : event) : Q := e_delay r + e_tlast r + e_ring r.   (* last RF sample + ring-down *)
 
-Definition BlockValid (sys : system) (b : block) : Prop :=
-  OnRaster (block_duration b) (s_block_raster sys) /\
+(* "every block duration ... is an integer multiple of its raster": the duration of the decoded
+   block (v = false: the source as it is) or the stored duration (v = true: the repaired source,
+   which tests the value that write() puts into the [BLOCKS] column) *)
+Definition dur_on_raster (v : bool) (b : block) : Q :=
+  if v then b_stored b else block_duration b.
+
+Definition BlockValid (v : bool) (sys : system) (b : block) : Prop :=
+  OnRaster (dur_on_raster v b) (s_block_raster sys) /\
   block_duration b - b_stored b <= spec_eps /\
   (forall sl e, In (sl, e) (block_slots b) -> EventValid sys e) /\
   (forall r, b_rf b = Some r ->
@@ -79,12 +85,12 @@ Definition BlockValid (sys : system) (b : block) : Prop :=
   (forall a, b_adc b = Some a ->
      AtLeast (e_delay a) (s_adc_dead sys) /\ Fits (adc_end sys a) (block_duration b)).
 
-Definition TimingValid (sys : system) (bs : list block) : Prop := Forall (BlockValid sys) bs.
+Definition TimingValid (v : bool) (sys : system) (bs : list block) : Prop := Forall (BlockValid v sys) bs.
 
 (* the property-text reading of the RF clause: RF end (delay + shape duration) plus ring-down fits
    in the stored block duration *)
-Definition BlockValid_text (sys : system) (b : block) : Prop :=
-  OnRaster (block_duration b) (s_block_raster sys) /\
+Definition BlockValid_text (v : bool) (sys : system) (b : block) : Prop :=
+  OnRaster (dur_on_raster v b) (s_block_raster sys) /\
   block_duration b - b_stored b <= spec_eps /\
   (forall sl e, In (sl, e) (block_slots b) -> EventValid sys e) /\
   (forall r, b_rf b = Some r ->
@@ -92,38 +98,38 @@ Definition BlockValid_text (sys : system) (b : block) : Prop :=
      Fits (e_delay r + e_shape_dur r + e_ring r) (b_stored b)) /\
   (forall a, b_adc b = Some a ->
      AtLeast (e_delay a) (s_adc_dead sys) /\ Fits (adc_end sys a) (block_duration b)).
-Definition TimingValid_text (sys : system) (bs : list block) : Prop :=
-  Forall (BlockValid_text sys) bs.
+Definition TimingValid_text (v : bool) (sys : system) (bs : list block) : Prop :=
+  Forall (BlockValid_text v sys) bs.
 
 (* one report entry = one violated clause *)
-Inductive BlockViolates (sys : system) (b : block) : err -> Prop :=
+Inductive BlockViolates (v : bool) (sys : system) (b : block) : err -> Prop :=
 | V_block_raster :
-    ~ OnRaster (block_duration b) (s_block_raster sys) ->
-    BlockViolates sys b (b_id b, SBlock, A_duration, RASTER)
+    ~ OnRaster (dur_on_raster v b) (s_block_raster sys) ->
+    BlockViolates v sys b (b_id b, SBlock, A_duration, RASTER)
 | V_mismatch :
-    Mismatch b -> BlockViolates sys b (b_id b, SBlock, A_duration, BLOCK_DURATION_MISMATCH)
+    Mismatch b -> BlockViolates v sys b (b_id b, SBlock, A_duration, BLOCK_DURATION_MISMATCH)
 | V_negative sl e :
     In (sl, e) (block_slots b) -> has_delay (e_kind e) = true -> e_delay e < - spec_eps ->
-    BlockViolates sys b (b_id b, sl, A_delay, NEGATIVE_DELAY)
+    BlockViolates v sys b (b_id b, sl, A_delay, NEGATIVE_DELAY)
 | V_field sl e a r :
     In (sl, e) (block_slots b) -> In (a, r) (raster_fields sys (e_kind e)) ->
     ~ OnRaster (attr_val e a) r ->
-    BlockViolates sys b (b_id b, sl, a, RASTER)
+    BlockViolates v sys b (b_id b, sl, a, RASTER)
 | V_rf_dead r :
     b_rf b = Some r -> e_delay r < e_dead r - spec_eps ->
-    BlockViolates sys b (b_id b, SRf, A_delay, RF_DEAD_TIME)
+    BlockViolates v sys b (b_id b, SRf, A_delay, RF_DEAD_TIME)
 | V_rf_ring r :
     b_rf b = Some r -> avail b + spec_eps < rf_last r ->
-    BlockViolates sys b (b_id b, SRf, A_duration, RF_RINGDOWN_TIME)
+    BlockViolates v sys b (b_id b, SRf, A_duration, RF_RINGDOWN_TIME)
 | V_adc_dead a :
     b_adc b = Some a -> e_delay a < s_adc_dead sys - spec_eps ->
-    BlockViolates sys b (b_id b, SAdc, A_delay, ADC_DEAD_TIME)
+    BlockViolates v sys b (b_id b, SAdc, A_delay, ADC_DEAD_TIME)
 | V_adc_post a :
     b_adc b = Some a -> avail b + spec_eps < adc_end sys a ->
-    BlockViolates sys b (b_id b, SAdc, A_duration, POST_ADC_DEAD_TIME).
+    BlockViolates v sys b (b_id b, SAdc, A_duration, POST_ADC_DEAD_TIME).
 
-Definition Violates (sys : system) (bs : list block) (e : err) : Prop :=
-  exists b, In b bs /\ BlockViolates sys b e.
+Definition Violates (v : bool) (sys : system) (bs : list block) (e : err) : Prop :=
+  exists b, In b bs /\ BlockViolates v sys b e.
 
 (* ------------------------------------------------------------------------------- C07 -------- *)
 (* running sum of the stored durations: start time of block number i (0-based) *)
